@@ -1124,6 +1124,25 @@ def c07(project, obs, view=None):
         out.append(F("C07/stream-truncated", "the event handler thread died (no fault injected): the backend received %d of %d events" % (len(handled), len(fires))))
         for sig, msg in recognise(fires, project["nb_threads"], complete="returned" in obs["outcome"]):
             out.append(F("C07/fired/" + sig, msg))
+    # EVERY reporting backend: a listener receives every handled event it has a handler for — once, in order — whatever
+    # other listeners (of its own class or not) were registered before it, in this run or in an earlier one of the process
+    names = obs.get("fire_names") or []
+    ks = [k for _, k in v.handled if k < len(names)]
+    for i, ls in enumerate(obs.get("listeners") or []):
+        want = [[k, names[k]] for k in ks if names[k] in ls["events"]]
+        got = [list(x) for x in ls["got"]]
+        if got != want:
+            missing = [x for x in want if x not in got]
+            extra = [x for x in got if x not in want]
+            if missing:
+                ends = sorted({n for _, n in missing})
+                out.append(F("C07/listener/event-not-delivered",
+                             "listener #%d (handlers: %s) never received %d of the %d events it has a handler for (%s), e.g. %r"
+                             % (i, ls["shape"], len(missing), len(want), ", ".join(ends)[:200], missing[0])))
+            elif extra:
+                out.append(F("C07/listener/event-delivered-without-handler-or-twice", "listener #%d (%s) received %r" % (i, ls["shape"], extra[0])))
+            else:
+                out.append(F("C07/listener/events-out-of-order", "listener #%d (%s) received its events in another order than they were handled" % (i, ls["shape"])))
     seen, res = set(), []
     for f in out:
         if f.signature not in seen:
